@@ -23,7 +23,7 @@ theorem emptyRoot_inv (hT : legalThreshold T = true) (id : SlabID) : MDataInv T 
   root_eq := rfl
   inl_root := by intro h; simp [emptyRoot] at h
   le_max := by
-    have := legal_bounds hT
+    have := map_legal_bounds hT
     simp [emptyRoot, maxThr, mapRootDataSlabPrefixSize, hkeyElementsPrefixSize]; omega
   ge_min := by intro h; cases h
   nonempty := by intro h; cases h
